@@ -172,6 +172,29 @@ def rule_terminate(report, prog):
     report.check(okk, 'C18-R3', key(f.qname, 'iterations / interval options reach sense()'), f.loc(), 'sense() options changed')
 
 
+def rule_card_loop(report, prog):
+    """R3 (card emulation): the command loop of _card_connect ends when the reader went away: the first handler that matches
+    BrokenLinkError leaves the loop, so that on-release is called and connect() returns."""
+    f = prog.func(CLF + '._card_connect')
+    loops = [l for l in walk_no_nested(f.node) if isinstance(l, ast.While) and 'terminate()' in norm(l.test)]
+    n = 0
+    for lp in loops:
+        for t in [x for x in lp.body if isinstance(x, ast.Try)]:
+            n += 1
+            first = None
+            for h in t.handlers:
+                ht = norm(h.type) if h.type is not None else ''
+                if h.type is None or any(w in ht for w in ('BrokenLinkError', 'CommunicationError', 'nfc.clf.Error', 'Exception')):
+                    first = h
+                    break
+            okk = first is not None and 'BrokenLinkError' in (norm(first.type) if first.type is not None else '') and \
+                isinstance(live(first.body)[-1], (ast.Break, ast.Return))
+            report.check(okk, 'C18-R3', key(f.qname, 'a broken link leaves the card emulation loop'), f.loc(t),
+                         'BrokenLinkError does not end the command loop of _card_connect: after the reader left, on-release is never called and connect() '
+                         'keeps exchanging on the dead link until terminate() becomes true')
+    report.floor('C18-R3 card loop', n, 1)
+
+
 def rule_sense(report, prog):
     f = prog.func(CLF + '.sense')
     cfg = cfg_of(f)
@@ -183,6 +206,15 @@ def rule_sense(report, prog):
             for h in ast.walk(f.node))
     report.check(okk, 'C18-R4', key(f.qname, 'UnsupportedTargetError re-raised only for a single target'), f.loc(),
                  'sense() with several targets can raise UnsupportedTargetError')
+    # the re-raise test counts the targets the caller gave: the list is neither re-bound nor shrunk while searching
+    mut = [st for st in ast.walk(f.node) if (isinstance(st, (ast.Assign, ast.AugAssign, ast.Delete)) and
+                                             any(isinstance(x, ast.Name) and x.id == 'targets' and isinstance(x.ctx, (ast.Store, ast.Del))
+                                                 for x in ast.walk(st)))
+           or (isinstance(st, ast.Expr) and isinstance(st.value, ast.Call) and isinstance(st.value.func, ast.Attribute) and
+               norm(st.value.func.value) == 'targets' and st.value.func.attr in ('remove', 'pop', 'clear', 'append', 'extend', 'insert'))]
+    report.check(not mut, 'C18-R4', key(f.qname, 'the target list given by the caller is not modified'), f.loc(mut[0]) if mut else f.loc(),
+                 'sense() modifies its target list (`%s`): the "re-raise only for a single target" test and the final field-off test then refer to a '
+                 'different list than the caller gave' % (norm(mut[0]) if mut else ''))
     hs = [norm(h.type) for t in ast.walk(f.node) if isinstance(t, ast.Try) for h in t.handlers if h.type is not None]
     report.check(hs == ['UnsupportedTargetError', 'CommunicationError'], 'C18-R4', key(f.qname, 'CommunicationError of one target does not end the search'),
                  f.loc(), 'sense() handlers: %s' % hs)
@@ -274,6 +306,7 @@ def run(report, prog, tier):
     rule_typestate(report, prog)
     rule_returns(report, prog)
     rule_terminate(report, prog)
+    rule_card_loop(report, prog)
     rule_sense(report, prog)
     rule_stale(report, prog)
     report.trusted += ['callbacks are opaque; exceptional exits are host-link faults outside this property\'s quantifier']
@@ -377,5 +410,17 @@ MUTANTS = [
                 exchange = self.device.send_cmd_recv_rsp
             elif isinstance(self.target, RemoteTarget):
                 exchange = self.device.send_rsp_recv_cmd""", 'C18-R5'),
+    ('card-loop-ignores-broken-link', 'nfc.clf', """                        except nfc.clf.BrokenLinkError as error:
+                            log.debug(error)
+                            break
+                        except nfc.clf.CommunicationError as error:""", """                        except nfc.clf.CommunicationError as error:""", 'C18-R3'),
+    ('sense-shrinks-target-list', 'nfc.clf', """                            raise error
+                        else:
+                            log.debug(error)
+""", """                            raise error
+                        else:
+                            log.debug(error)
+                            targets = [t for t in targets if t is not target]
+""", 'C18-R4'),
 ]
 MUTANTS = [m for m in MUTANTS if m[4] != 'C18-NONE']
